@@ -604,6 +604,20 @@ func main() {
 		if it.Type == "" {
 			it.Type = "Z"
 		}
+		doItem(it)
+	}
+	writeOut(spec, outPath)
+}
+
+// doItem translates one spec item; a construct that trips the translator up (a panic inside
+// go/types or in our own code) is a broken tie like any other untranslatable construct.
+func doItem(it Item) {
+	defer func() {
+		if r := recover(); r != nil {
+			broken("%s %s.%s%s: the translator cannot handle this construct (internal: %v)", it.Kind, it.Pkg, it.Func, it.Name, r)
+		}
+	}()
+	{
 		switch it.Kind {
 		case "const":
 			doConst(it)
@@ -624,6 +638,9 @@ func main() {
 			os.Exit(2)
 		}
 	}
+}
+
+func writeOut(spec Spec, outPath string) {
 	imports := "Common.Base"
 	if usesGoList {
 		imports = "Common.Base Common.GoList"
